@@ -306,7 +306,52 @@ def D20():
     print("D20", "OK" if whole == split else "DEFECT", "one read: %s; request line and the rest in two reads: %s" % (whole, split))
 
 
-ALL = {"D20": D20, "D19": D19, "D18": D18, "D14": D14, "D15": D15, "D16": D16, "D17": D17, "D1": D1, "D2": D2, "D3": D3, "D4": D4, "D5": D5_D6, "D6": D5_D6, "D7": D7, "D8": D8, "D9": D9, "D10": D10, "D11": D11, "D12": D12, "D13": D13}
+def D21():
+    """the boot-failure halt must survive a SIGCHLD that is delivered inside os.fork()'s after-fork callbacks (deterministic
+    replay of the race: the handler is invoked from such a callback, which is where the interpreter discards exceptions)"""
+    import io, contextlib
+    sys.path.insert(0, os.environ.get("GVERIF_REPO", "/repo"))
+    import gunicorn.arbiter as A
+    arb = A.Arbiter.__new__(A.Arbiter)
+    arb.reexec_pid = 0
+    arb.halt_request = None
+    arb.PIPE = []
+    arb.WORKERS = {}
+    arb.cfg = type("C", (), {"child_exit": staticmethod(lambda *a: None)})()
+    arb.log = type("L", (), {"error": lambda *a, **k: None, "warning": lambda *a, **k: None, "info": lambda *a, **k: None, "debug": lambda *a, **k: None})()
+    arb.wakeup = lambda: None
+    seq = [(4242, A.Arbiter.WORKER_BOOT_ERROR << 8), (0, 0)]
+    real_waitpid = os.waitpid
+    A.os.waitpid = lambda pid, flags: seq.pop(0) if (pid == -1 and seq) else (0, 0)
+    fired = []
+
+    def after_fork_in_parent():
+        if not fired:
+            fired.append(1)
+            arb.handle_chld(17, None)          # the SIGCHLD of a worker that died right after the fork
+    os.register_at_fork(after_in_parent=after_fork_in_parent)
+    err = io.StringIO()
+    lost = True
+    try:
+        with contextlib.redirect_stderr(err):
+            pid = os.fork()
+            if pid == 0:
+                os._exit(0)
+        lost = False        # nothing propagated: the interpreter discarded whatever the handler raised
+    except BaseException:
+        lost = False
+    finally:
+        A.os.waitpid = real_waitpid
+        try:
+            real_waitpid(pid, 0)
+        except Exception:
+            pass
+    survives = getattr(arb, "halt_request", None) is not None
+    print("D21", "OK" if survives else "DEFECT", "HaltServer raised by the SIGCHLD handler inside an after-fork callback: %s" % (
+        "recorded for the main loop (halt_request=%r)" % (arb.halt_request,) if survives else "discarded by the interpreter, nothing recorded -- the server keeps running with the dead worker tracked"))
+
+
+ALL = {"D21": D21, "D20": D20, "D19": D19, "D18": D18, "D14": D14, "D15": D15, "D16": D16, "D17": D17, "D1": D1, "D2": D2, "D3": D3, "D4": D4, "D5": D5_D6, "D6": D5_D6, "D7": D7, "D8": D8, "D9": D9, "D10": D10, "D11": D11, "D12": D12, "D13": D13}
 
 if __name__ == "__main__":
     want = sys.argv[1:] or ["D1", "D2", "D3", "D4", "D5", "D7", "D8", "D9", "D10", "D11", "D12", "D13"]
